@@ -180,15 +180,16 @@ structure Switch where
   name : String
   deriving Repr, DecidableEq
 
-/-- the `override` column, indexed by code, `tableSize` long -/
-abbrev Overrides := List Bool
+/-- the `override` column, indexed by code (only indices below `tableSize` are ever consulted) -/
+abbrev Overrides := Nat → Bool
 
-def initOverrides : Overrides := (List.range LibErrors.tableSize).map (fun i => (entry i).override)
+def initOverrides : Overrides := fun i => (entry i).override
+
+def setAt (ov : Overrides) (i : Nat) (b : Bool) : Overrides := fun j => if j = i then b else ov j
 
 inductive SetOutcome
   | ok (ov : Overrides) (found : Bool)
   | crash                     -- `strcmp( NULL, name )`
-  deriving Repr, DecidableEq
 
 /-- the loop of `ERRORset_warning` from index `i` on, `n` iterations left -/
 def setWarningLoop (guard : Bool) (name : String) (b : Bool) : Nat → Nat → Overrides → Bool → SetOutcome
@@ -198,7 +199,7 @@ def setWarningLoop (guard : Bool) (name : String) (b : Bool) : Nat → Nat → O
       match classOf i with
       | none => if guard then setWarningLoop guard name b n (i + 1) ov found else .crash
       | some c =>
-        if c = name then setWarningLoop guard name b n (i + 1) (ov.set i b) true
+        if c = name then setWarningLoop guard name b n (i + 1) (setAt ov i b) true
         else setWarningLoop guard name b n (i + 1) ov found
     else setWarningLoop guard name b n (i + 1) ov found
 
@@ -206,14 +207,13 @@ def setWarning (guard : Bool) (ov : Overrides) (name : String) (b : Bool) : SetO
   setWarningLoop guard name b LibErrors.tableSize 0 ov false
 
 def setAllWarnings (ov : Overrides) (b : Bool) : Overrides :=
-  (List.range ov.length).map (fun i => if severityOf i ≤ LibErrors.SEVERITY_WARNING then b else ov.getD i false)
+  fun i => if severityOf i ≤ LibErrors.SEVERITY_WARNING then b else ov i
 
 /-- result of option processing in `main` -/
 inductive Config
   | ok (ov : Overrides)
   | crash                     -- SIGSEGV in strcmp → ERRORabort → abort()
   | usage                     -- "unknown warning", usage text, exit(2)
-  deriving Repr, DecidableEq
 
 def applySwitches (guard : Bool) : List Switch → Overrides → Config
   | [], ov => .ok ov
@@ -230,7 +230,7 @@ def configure (guard : Bool) (sws : List Switch) : Config :=
   | _ => applySwitches guard sws initOverrides
 
 /-- `ERRORis_enabled` -/
-def enabled (ov : Overrides) (code : Nat) : Bool := !(ov.getD code false)
+def enabled (ov : Overrides) (code : Nat) : Bool := !(ov code)
 
 /-! ## running a sequence of reports -/
 
